@@ -429,6 +429,20 @@ func checkSameEl(r *Report, m *spModel, sr *sigRoles) {
 					continue
 				}
 				scf := c.Call.StaticCallee()
+				// the ciphertext handed to the decrypt step is itself part of what was verified: found by the
+				// namespace-aware finders below the verified element, not by an etree path (which may start at the
+				// document root and pick up an element outside the signed subtree)
+				if scf != nil && sr.Decrypt[scf] && !sr.Decrypt[fn] {
+					for _, arg := range c.Call.Args {
+						if !typeIs(arg.Type(), "github.com/beevik/etree", "Element") {
+							continue
+						}
+						r.Fn(p.FnName(fn))
+						cons := fmt.Sprintf("%s: encrypted element %s handed to the decrypt step", p.FnName(fn), fc.AP(arg))
+						src, okD := elementSource(p, fc, arg, sr, 0)
+						r.Check(okD, rule, cons, p.InstrPos(in), src, "the element that is decrypted comes from "+src+": an etree path query ignores namespaces and document position, so content outside the verified element can become part of the returned assertion")
+					}
+				}
 				if scf == nil || !sr.Unmarshal[scf] || sr.Unmarshal[fn] {
 					continue
 				}
